@@ -7,6 +7,7 @@ import (
 	"go.pennock.tech/tabular/json"
 	"go.pennock.tech/tabular/markdown"
 	"go.pennock.tech/tabular/texttable"
+	"go.pennock.tech/tabular/texttable/decoration"
 )
 
 const vfWide = "0123456789012345678901234567890123456789012345678901234567890123456789012345678901234567890"
@@ -14,7 +15,9 @@ const vfWide = "0123456789012345678901234567890123456789012345678901234567890123
 // vfScenario builds a small table through one creation path and renders it in one format:
 // 0 core+csv, 1 csv.New+json, 2 texttable.New+markdown, 3 markdown.New+text, 4 auto utf8-light,
 // 5 auto none, 6 auto html, 7 html wrapper with a named template, 8 text table with a very wide column,
-// 9 json of a table holding an item json cannot encode (fails part-way), 10 text table with non-ASCII text
+// 9 json of a table holding an item json cannot encode (fails part-way), 10 text table with non-ASCII text,
+// 11 text table with a decoration looked up in the registry and then customised by its owner (a '~' rule),
+// 12 text table with that same registered decoration as it is
 func vfScenario(sc int, a string) (string, bool) {
 	var t tabular.Table
 	switch sc {
@@ -51,6 +54,16 @@ func vfScenario(sc int, a string) (string, bool) {
 		out, err = markdown.Render(t)
 	case 3, 8, 10:
 		out, err = texttable.Render(t)
+	case 11:
+		d := decoration.Named(decoration.D_UTF8_LIGHT)
+		d.HRule = "~"
+		tt := texttable.Wrap(t)
+		tt.SetDecoration(d)
+		out, err = tt.Render()
+	case 12:
+		tt := texttable.Wrap(t)
+		tt.SetDecorationNamed(decoration.D_UTF8_LIGHT)
+		out, err = tt.Render()
 	case 4:
 		out, err = Render(t, "utf8-light")
 	case 5:
@@ -71,12 +84,12 @@ func vfScenario(sc int, a string) (string, bool) {
 func VerifC16_independent() {
 	a1 := vfString("a1", 1, vfTXT)
 	a2 := vfString("a2", 1, vfTXT)
-	s1 := vfChoice("scenario1", 11)
+	s1 := vfChoice("scenario1", 13)
 	s2 := 0
 	if vfTier() == 1 {
-		s2 = vfChoice("scenario2", 11)
+		s2 = vfChoice("scenario2", 13)
 	} else {
-		s2 = []int{3, 6, 7, 8, 1}[vfChoice("scenario2", 5)]
+		s2 = []int{3, 6, 7, 8, 1, 12}[vfChoice("scenario2", 6)]
 	}
 	var o1, o2 string
 	var e1, e2 bool
@@ -95,6 +108,19 @@ func VerifC16_independent() {
 	w2, we2 := vfScenario(s2, a2)
 	vfAssert(vfAnd(o1 == w1, e1 == we1), "output-equals-solo-output")
 	vfAssert(vfAnd(o2 == w2, e2 == we2), "output-equals-solo-output")
+	// an owner's customisation of its copy of a registered decoration stays with that owner
+	for _, p := range []struct {
+		sc  int
+		out string
+	}{{s1, o1}, {s2, o2}, {s1, w1}, {s2, w2}} {
+		if p.sc == 11 || p.sc == 12 {
+			tilde := false
+			for i := 1; i < len(p.out); i++ {
+				tilde = vfOr(tilde, vfAnd(p.out[i] == '~', p.out[i-1] == '~'))
+			}
+			vfAssert(tilde == (p.sc == 11), "owners-decoration-customisation-stays-with-its-owner")
+		}
+	}
 	if nb == 3 {
 		vfAssert(len(styles) >= 10, "registry-read-concurrently")
 	}
